@@ -1,5 +1,6 @@
 CONSTANTS
   MaxLen = 4
+  MaxPresents = 2
 INIT Init
 NEXT Next
 INVARIANTS
